@@ -54,6 +54,11 @@ func genSupCase(r *simkit.Rand, tier string, intensityStudy bool) *SupCase {
 		c.Strategy = simkit.Pick(r, "permanent", "transient")
 		c.Intensity = r.Range(1, 5)
 		c.Period = r.Range(1, 6)
+		if r.Chance(0.3) {
+			// periods far beyond what a test would wait for (the clock is simulated): 16-bit and
+			// 32-bit millisecond boundaries included
+			c.Period = simkit.Pick(r, 30, 60, 65, 66, 67, 100, 131, 300, 1000, 3600, 65535)
+		}
 		c.NoAutoStop = true
 		for i := range c.Significant {
 			c.Significant[i] = false
@@ -142,6 +147,11 @@ func runSeparated(prop string, e *simkit.Env, c *SupCase) {
 	}
 	defer simkit.StopNode(e, r.n, false, 0)
 	m := newSupModel(c)
+	total := time.Hour
+	for _, ev := range c.Events {
+		total += time.Duration(ev.GapMs)*time.Millisecond + time.Minute
+	}
+	e.SetSimLimit(total)
 	e.Settle(time.Second)
 	if !r.compare(m, "after start") {
 		return
